@@ -431,7 +431,8 @@ fn scenario(rt: &tokio::runtime::Runtime, ffi_rt: &FfiRuntime, line: &str) -> St
             format!("ffi:{rc}/{ev} rust:{r}")
         }
         "noconn" => {
-            let port = free_port("127.0.0.1"); // nothing listens there
+            let closed = ClosedPort::new(); // nothing listens there, nobody else can take it
+            let port = closed.port;
             let c = ffi_channel(ffi_rt, port, 4);
             // wait for the first failed connect so that the channel is in its fail-fast state
             wait_until(Duration::from_secs(5), || c.states.lock().unwrap().seq.iter().any(|s| s == "WaitAfterFailedConnect"));
@@ -524,15 +525,45 @@ fn scenario(rt: &tokio::runtime::Runtime, ffi_rt: &FfiRuntime, line: &str) -> St
             format!("ffi:{rc}/{ev}/destroy={destroyed} rust:{r}")
         }
         "states" => {
+            // <extra> = close: connect, the peer closes on a request, reconnect, destroy
+            //           refuse: the peer port is closed (failed connects), destroy
+            fn first_appearance(v: &[String]) -> String {
+                let mut out: Vec<&str> = Vec::new();
+                for s in v {
+                    if !out.contains(&s.as_str()) {
+                        out.push(s);
+                    }
+                }
+                out.join(">")
+            }
+            if extra == "refuse" {
+                let closed = ClosedPort::new();
+                let c = ffi_channel(ffi_rt, closed.port, 4);
+                wait_until(Duration::from_secs(5), || c.states.lock().unwrap().seq.iter().filter(|s| *s == "WaitAfterFailedConnect").count() >= 2);
+                unsafe { ffi::rodbus_client_channel_destroy(c.ch) };
+                wait_until(Duration::from_secs(5), || c.states.lock().unwrap().seq.iter().any(|s| s == "Shutdown"));
+                let f = first_appearance(&c.states.lock().unwrap().seq);
+                let (ch, states) = rust_channel(rt, closed.port, 4);
+                wait_until(Duration::from_secs(5), || states.lock().unwrap().iter().filter(|s| *s == "WaitAfterFailedConnect").count() >= 2);
+                drop(ch);
+                wait_until(Duration::from_secs(5), || states.lock().unwrap().iter().any(|s| s == "Shutdown"));
+                let r = first_appearance(&states.lock().unwrap());
+                return format!("ffi:Ok/{f} rust:{r}");
+            }
             let peer = start_peer(rt);
             let c = ffi_channel(ffi_rt, peer.port, 4);
             let ok = ffi_connected(&c);
+            let (_rc, slot) = unsafe { ffi_request(c.ch, "rh", 1003, 1, 2000, false) };
+            let _ = slot_events(slot, Duration::from_secs(5));
+            wait_until(Duration::from_secs(5), || c.states.lock().unwrap().seq.iter().filter(|s| *s == "Connected").count() >= 2);
             unsafe { ffi::rodbus_client_channel_destroy(c.ch) };
             wait_until(Duration::from_secs(5), || c.states.lock().unwrap().seq.iter().any(|s| s == "Shutdown"));
             let f = c.states.lock().unwrap().seq.join(">");
             let peer2 = start_peer(rt);
             let (ch, states) = rust_channel(rt, peer2.port, 4);
             wait_until(Duration::from_secs(10), || states.lock().unwrap().iter().any(|s| s == "Connected"));
+            let _ = rt.block_on(rust_request(&ch, "rh", 1003, 1, 2000));
+            wait_until(Duration::from_secs(5), || states.lock().unwrap().iter().filter(|s| *s == "Connected").count() >= 2);
             drop(ch);
             wait_until(Duration::from_secs(5), || states.lock().unwrap().iter().any(|s| s == "Shutdown"));
             let r = states.lock().unwrap().join(">");
